@@ -371,9 +371,11 @@ impl Value {
     }
 
     pub fn from_float(f: f64) -> Value {
-        let rounded = f as i64;
-        if (f - f.floor()).abs() < f64::EPSILON {
-            Value::Int(rounded)
+        // An integer only when the double *is* that integer: no fractional part at all and inside
+        // the i64 range (`as i64` saturates, and `(f - f.floor()).abs() < EPSILON` also held for
+        // every positive double below 2.2e-16, which then became 0).
+        if f.fract() == 0.0 && f >= -9223372036854775808.0 && f < 9223372036854775808.0 {
+            Value::Int(f as i64)
         } else {
             Value::Float(OrderedFloat(f))
         }
